@@ -52,7 +52,7 @@ _BYTES.update(_h(['vk_int_bytes_to_large3_le', 'vk_int_bytes_to_large3_be', 'vk_
                  'bounded', _B3 + ': the 3-word half'))
 # to_signed_be_bytes (Vec::insert(0, ..) on a symbolic length is out of reach): literal top word, symbolic low words;
 # meaning of the bytes + be == reversed le
-_BYTES.update(_h(['vk_int_bytes_sbe_ctop_pos', 'vk_int_bytes_sbe_ctop_neg_a', 'vk_int_bytes_sbe_ctop_neg_b'], 'bounded',
+_BYTES.update(_h(['vk_int_bytes_sbe_ctop_pos', 'vk_int_bytes_sbe_ctop_neg_b'], 'bounded',
                  '3-word magnitudes: two fully symbolic low words, top word from the literal palette in the harness'))
 # (B) bytes -> value on arbitrary byte strings
 _BYTES.update(_h(['vk_int_bytes_from_le_0_16', 'vk_int_bytes_from_be_0_16', 'vk_int_bytes_from_sle_0_16',
@@ -67,7 +67,7 @@ _BYTES.update(_h(['vk_int_bytes_roundtrip_concrete_large', 'vk_int_bytes_roundtr
 # signed parsers, the be palette for negative numbers; the remaining instances repeat the same code with the other
 # endianness / sign
 for _n in ['vk_int_bytes_to_small_sle_pos', 'vk_int_bytes_to_large3_be', 'vk_int_bytes_to_large3_sle_pos',
-           'vk_int_bytes_sbe_ctop_pos', 'vk_int_bytes_sbe_ctop_neg_a',
+           'vk_int_bytes_sbe_ctop_pos', 'vk_int_bytes_sbe_ctop_neg_b',
            'vk_int_bytes_from_le_0_16', 'vk_int_bytes_from_le_17_25', 'vk_int_bytes_from_be_17_25',
            'vk_int_bytes_from_sbe_17_25', 'vk_int_bytes_roundtrip_concrete_large']:
     _BYTES[_n]['tier'] = 'thorough'
@@ -83,8 +83,15 @@ _CHUNKS.update(_h(['vk_int_chunks_small_cb63', 'vk_int_chunks_small_cb64', 'vk_i
 _CHUNKS.update(_h(['vk_int_chunks_from_cb1', 'vk_int_chunks_from_cb64', 'vk_int_chunks_from_cb65',
                    'vk_int_chunks_from_cb100'], 'bounded',
                   'three chunks of 2, 0, 1 fully symbolic words (chunks wider than the chunk size), literal chunk size'))
-_CHUNKS.update(_h(['vk_int_chunks_glue_cb128', 'vk_int_chunks_glue_cb65', 'vk_int_chunks_glue_none'], 'bounded',
-                  'one concrete 3-word number through to_chunks / from_chunks (allocation glue)'))
+_CHUNKS.update(_h(['vk_int_chunks_glue_none'], 'bounded', 'Repr::from_chunks of the empty list'))
+
+# RefSmall::to_chunks builds a Vec of symbolic length: ~4 min and > 10 GB per chunk size: thorough tier only
+for _n in ['vk_int_chunks_small_cb63', 'vk_int_chunks_small_cb64', 'vk_int_chunks_small_cb65', 'vk_int_chunks_small_cb127',
+           'vk_int_chunks_small_cb128', 'vk_int_chunks_small_cb129', 'vk_int_chunks_kernel_cb7',
+           'vk_int_chunks_kernel_cb128_b', 'vk_int_chunks_kernel_cb65_a', 'vk_int_chunks_kernel_cb65_c',
+           'vk_int_chunks_kernel_cb63_a', 'vk_int_chunks_kernel_cb63_b', 'vk_int_chunks_kernel_cb33_a',
+           'vk_int_chunks_from_cb64', 'vk_int_chunks_from_cb100']:
+    _CHUNKS[_n]['tier'] = 'thorough'
 
 _PARSE = {}
 _PARSE.update(_h(['vk_int_parse_p2_word'], 'bounded',
@@ -93,7 +100,22 @@ _PARSE.update(_h(['vk_int_parse_p2_large_r2', 'vk_int_parse_p2_large_r4', 'vk_in
                   'vk_int_parse_p2_large_r16', 'vk_int_parse_p2_large_r32'], 'bounded',
                  '5 fully symbolic ASCII characters followed by digits_per_word - 2 concrete digits: parse and parse_large'))
 
+_FMTP2 = {}
+_FMTP2.update(_h(['vk_int_fmt_p2_word_new', 'vk_int_fmt_p2_dword_new'], 'complete',
+                 'every Word / every DoubleWord above Word::MAX x radix in {2, 4, 8, 16, 32}: number of digits'))
+_FMTP2.update(_h(_scan_names('int_fmt_p2.rs', 'vk_int_fmt_p2_word_write_') + _scan_names('int_fmt_p2.rs', 'vk_int_fmt_p2_dword_write_'),
+                 'bounded', 'every value with the literal number of digits of the harness, literal radix and letter case, '
+                            'through the real DigitWriter'))
+_FMTP2.update(_h(_scan_names('int_fmt_p2.rs', 'vk_int_fmt_p2_large3_'), 'bounded',
+                 '3-word numbers: two fully symbolic low words, top word from the literal palette; literal radix'))
+for _n in ['vk_int_fmt_p2_large3_r2', 'vk_int_fmt_p2_large3_r32', 'vk_int_fmt_p2_large3_r8']:
+    _FMTP2[_n]['tier'] = 'thorough'
+
 KANI = {
+    'int_fmt_p2': {
+        'package': 'dashu-int', 'target': 'integer/src/fmt/power_two.rs', 'file': 'int_fmt_p2.rs',
+        'harnesses': _FMTP2,
+    },
     'int_bytes': {
         'package': 'dashu-int', 'target': 'integer/src/convert.rs', 'file': 'int_bytes.rs',
         'harnesses': _BYTES,
@@ -108,7 +130,35 @@ KANI = {
     },
 }
 
+_PARSE['vk_int_parse_p2_large_r2']['tier'] = 'thorough'      # 67 characters: > 5 min
+for _n in ['vk_int_parse_p2_large_r4', 'vk_int_parse_p2_large_r8', 'vk_int_parse_p2_large_r32']:
+    _PARSE[_n]['tier'] = 'thorough'                           # ~2 min each; r16 stays in the quick tier
+
 PROP_UNITS = {
     'C07': {'verus': ['int_fmt_width', 'int_fmt_digits', 'int_fmt_dispatch'],
-            'undecided': []},
+            'kani': ['int_bytes', 'int_chunks', 'int_parse_p2', 'int_fmt_p2'],
+            'undecided': [
+                'int_fmt_digits / int_fmt_dispatch cover numbers of at most CHUNK_LEN * digits_per_word digits (PreparedWord, '
+                'PreparedMedium: <= 15 words in radix 10); PreparedDword::new (closure capturing `&mut prepared`, 3-part '
+                'division) and PreparedLarge::{new, write, write_big_chunk, write_chunk} (big-integer pow / sqr / div_rem, '
+                'mem::take, drain(..).rev()) are NOT under contract: their constructors are ASSUMED to "stand for their '
+                'argument" in int_fmt_dispatch; of PreparedLarge only width() is proved (against the stored chunk levels)',
+                'InRadixWriter::format_prepared / DoubleEnd::format_prepared (sign, prefix, width / fill / alignment / zero '
+                'padding around the digits) are not decided: the code is a sequence of core::fmt::Formatter calls around a '
+                'closure that captures a `&mut dyn PreparedForFormatting` (no trait objects / FnMut captures in Verus; '
+                'core::fmt machinery with a symbolic digit count does not terminate in CBMC); only its input -- width() == '
+                'number of digits written -- is proved',
+                'DigitWriter (buffering, raw digit -> ASCII) is ASSUMED in the Verus units (lib/codecs_writer_stub.rs) and '
+                'exercised for real by the Kani group int_fmt_p2; num_modular PreMulInv1by1::div_rem and '
+                'Normalized2by1Divisor are assumed contracts (dependency)',
+                'byte codecs: bounded to 3 words / 25 bytes; to_signed_be_bytes only with a literal top word (3 words) or '
+                'literal values (1..=2 words): Vec::insert(0, ..) on a symbolic length exhausts CBMC; the composition '
+                'from(to(x)) is implied by (A) + (B) of kani/harness/int_bytes.rs and executed on literals only',
+                'bit chunks: the kernels words_to_chunks / chunks_to_words on 3-word inputs with a literal top word and '
+                'chunk size, RefSmall::to_chunks for chunk sizes >= 63; the Vec<Buffer> allocation glue of '
+                'TypedReprRef::to_chunks (RefLarge) and Repr::from_chunks (chunk count, buffer sizes) is NOT covered '
+                '(CBMC: > 5 min / 11 GB on literal inputs)',
+                'parsing: power-of-two radices only, 5 symbolic characters (+ literal tail); the sign / prefix / leading-zero '
+                'stripping of parse/mod.rs and the non-power-of-two parsers are not under contract']},
+    'C17': {'kani': ['int_bytes', 'int_chunks']},
 }
